@@ -99,6 +99,13 @@ struct Run {
     uint64_t startSeq, endSeq;
   };
   std::vector<Exec> execs;
+  // cancellation through the frontend (C05 at build-system level)
+  int toolStartsThisBuild = 0;
+  std::map<std::string, uint64_t> toolStartSeq;    // this build
+  std::map<std::string, uint64_t> spawnSeq;        // this build: when posix_spawn was called for a command
+  bool bCancelIssued = false, bCancelReturnedInBuild = false, buildReturned = false, cancelDone = true;
+  uint64_t cancelSeq = 0;
+  int cancelledBuilds = 0, cancelsInFlight = 0;
   std::set<std::string> startedThisBuild, finishedOkThisBuild, failedThisBuild;
   std::map<std::string, std::vector<std::pair<std::string, int>>> discoveredThisBuild;
   std::vector<std::string> errors;
@@ -139,6 +146,7 @@ struct Run {
     // the same observation belongs to different properties depending on what the history exercised
     if (property == "C11" && clause == "C09.2") clause = "C11.2";       // a change to a discovered path did not re-run the command
     if (property == "C10" && clause == "C08.1" && everFailed) clause = "C10.4";   // no convergence after repair
+    if (property == "C05" && (clause == "C08.1" || clause == "C08.3" || clause == "C09.2") && cancelledBuilds > 0) clause = "C05.5";   // a later build is not clean
     bool mine = clause.compare(0, property.size() + 1, property + ".") == 0;
     if (mine) {
       if (verdict) return;
@@ -383,6 +391,8 @@ int Run::toolProgram(simos::ProcCtx& c) {
   const Cmd* cmd = desc.byName(name);
   uint64_t startSeq = seq;
   ev("tool-start " + name);
+  toolStartsThisBuild++;
+  toolStartSeq[name] = startSeq;
   if (!cmd) {
     c.write(2, "unknown command\n");
     return 3;
@@ -524,6 +534,13 @@ void Run::opBuild(const Json& op) {
   cycle = false;
   expectMemo.clear();
   size_t execFrom = execs.size();
+  toolStartsThisBuild = 0;
+  toolStartSeq.clear();
+  spawnSeq.clear();
+  bCancelIssued = bCancelReturnedInBuild = buildReturned = false;
+  cancelDone = true;
+  const Json* cancelSpec = property == "C05" ? op.find("cancel") : nullptr;
+  bool cancelOn = cancelSpec != nullptr;
 
   // ---- prediction (before the build touches anything)
   std::vector<std::string> roots;
@@ -546,7 +563,7 @@ void Run::opBuild(const Json& op) {
       const Cmd* p = desc.producer(i);
       if (!p) continue;
       if (predictFail[p->name]) upstreamFailed = true;
-      if (noClaim.count(p->name)) noClaim.insert(c->name);   // nothing firm can be said downstream of an unjudged command
+      if (noClaim.count(p->name) || softAfterFailure.count(p->name)) noClaim.insert(c->name);   // nothing firm can be said downstream of an unjudged command
       // a virtual node carries no value: its producer running does not by itself re-run consumers
       if (predictRun[p->name] && !isVirtualNode(i)) {
         // a producer that runs rewrites its outputs: a new timestamp always, new content only sometimes
@@ -679,7 +696,30 @@ void Run::opBuild(const Json& op) {
     runner::Silence quiet;
     sim::set_child_role("bs");
     BuildSystemFrontend frontend(delegate, inv, std::move(lfs));
+    if (cancelOn) {
+      // a foreign thread (the client's signal handling thread) cancels through the frontend delegate
+      cancelDone = false;
+      int n = (int)cancelSpec->getn("n"), yields = (int)cancelSpec->getn("yields");
+      Delegate* dp = &delegate;
+      sim::spawn("canceller", [this, dp, n, yields]() {
+        sim::block_until([this, n]() { return toolStartsThisBuild >= n || buildReturned; }, 0, "cancel-gate");
+        for (int i = 0; i < yields && !buildReturned; i++) sim::yield("canceller");
+        if (!buildReturned) {
+          ev("cancel");
+          bCancelIssued = true;
+          dp->cancel();
+          bCancelReturnedInBuild = !buildReturned;
+          cancelSeq = seq;
+          ev("cancel-returned");
+        }
+        sim::hb_release(&cancelDone);
+        cancelDone = true;
+      });
+    }
     ok = byNode ? frontend.buildNode(node) : frontend.build(target);
+    buildReturned = true;
+    if (!cancelDone) sim::block_until([this]() { return cancelDone; }, 0, "join-canceller");
+    sim::hb_acquire(&cancelDone);
     sim::set_child_role("");
   }
   simfs::fs().actor = savedActor;
@@ -742,6 +782,21 @@ void Run::opBuild(const Json& op) {
   }
   res.counters["commands_executed"] += ran.size();
 
+  // C05 at build-system level: a cancelled build reports failure and starts nothing after cancel() returned
+  std::set<std::string> interrupted;   // tools that started and were killed before they finished
+  for (auto& e : toolStartSeq)
+    if (!ran.count(e.first)) interrupted.insert(e.first);
+  if (bCancelIssued) {
+    cancelledBuilds++;
+    res.counters["builds_cancelled"]++;
+    if (!interrupted.empty()) res.counters["builds_cancelled_with_running_tools"]++;
+    if (bCancelReturnedInBuild && ok)
+      viol("C05.6", "build " + std::to_string(buildNo) + " reported success although cancel() had returned before it ended");
+    for (auto& e : spawnSeq)
+      if (bCancelReturnedInBuild && e.second > cancelSeq)
+        viol("C05.7", "a process for command " + e.first + " was spawned after cancel() had returned");
+  }
+
   // C10: nothing downstream of a failed command starts; the build reports failure
   std::set<std::string> actuallyFailed;
   for (auto& n : ran)
@@ -781,10 +836,10 @@ void Run::opBuild(const Json& op) {
       }
   }
   for (auto& e : predictFail)
-    if (e.second && predictRun[e.first] && !ran.count(e.first) && exact)
+    if (e.second && predictRun[e.first] && !ran.count(e.first) && exact && !bCancelIssued)
       viol("C10.3", "command " + e.first + " failed before and was not attempted again in build " + std::to_string(buildNo));
 
-  if (anyPredictedFailure && ok && exact)
+  if (anyPredictedFailure && ok && exact && !bCancelIssued)
     viol("C10.2", "build " + std::to_string(buildNo) + " reported success although a command on the way to the target must fail (injected failure or missing input)");
 
   // C08: outputs equal a clean build's
@@ -817,7 +872,7 @@ void Run::opBuild(const Json& op) {
         res.counters["outputs_compared"]++;
       }
     }
-  } else if (!anyPredictedFailure && actuallyFailed.empty() && !cycle) {
+  } else if (!anyPredictedFailure && actuallyFailed.empty() && !cycle && !bCancelIssued) {
     std::string errs;
     for (auto& e : errors) errs += e + "; ";
     viol("C08.3", "build " + std::to_string(buildNo) + " failed although nothing was made to fail and a clean build succeeds (errors: " + errs + ")");
@@ -840,7 +895,7 @@ void Run::opBuild(const Json& op) {
       continue;
     }
     if (noClaim.count(c->name)) continue;
-    if (want && !did && !predictFail[c->name] && actuallyFailed.empty() && !anyPredictedFailure) {
+    if (want && !did && !predictFail[c->name] && actuallyFailed.empty() && !anyPredictedFailure && !bCancelIssued) {
       // (a hard prediction: soft only ever relaxes the "must not run" direction)
       std::string why = !recs.count(c->name) ? "never ran successfully" : recs[c->name].defHash != defHashWithNodes(*c) ? "its definition (or the type/filters of one of its input nodes) changed" : "an input or output changed";
       viol(hasDir ? "C12.1" : "C09.2", "command " + c->name + " was not re-executed in build " + std::to_string(buildNo) + " although " + why);
@@ -855,7 +910,7 @@ void Run::opBuild(const Json& op) {
 
   // C11: discovered paths are delivered byte for byte, and malformed files fail the command
   for (const Cmd* c : order) {
-    if (c->tool != "shell" || c->deps.empty() || !ranOk.count(c->name)) continue;
+    if (c->tool != "shell" || c->deps.empty() || !ranOk.count(c->name) || bCancelIssued) continue;
     std::string mode = failFlags.count(c->name) ? failFlags[c->name] : "";
     if (mode == "baddeps" || mode == "baddeps2") {
       if (ok || !failedThisBuild.count(c->name) == false) {
@@ -913,10 +968,14 @@ void Run::opBuild(const Json& op) {
         }
       }
       recs[c->name] = r;
-    } else if (ran.count(c->name)) {
+    } else if (ran.count(c->name) || interrupted.count(c->name)) {
       recs[c->name].ok = false;
     }
   }
+  // A command that finished around a cancellation may or may not have had its result recorded (the engine drops what it
+  // has not processed when the build is cancelled): it may run again, and so may what consumes it.
+  if (bCancelIssued)
+    for (auto& n : ranOk) softAfterFailure.insert(n);
   // everything downstream of a failed command must be re-attempted by the next build that reaches it (C10),
   // whether or not this build's target reached it
   std::set<std::string> reached;
@@ -926,7 +985,9 @@ void Run::opBuild(const Json& op) {
     // reached by this build and skipped because of the failure: must be re-attempted.  Consumers this build did not
     // reach see the failed output's value change twice (to "failed" and back); whether they re-run when the final
     // content is identical (checksum-only mode) is not prescribed.
-    if (reached.count(t)) recs[t].ok = false;
+    // After a cancellation nothing is persisted for tasks that did not complete, so the old result of a consumer
+    // may legitimately still stand: no claim either way until it runs again.
+    if (reached.count(t) && !(bCancelIssued && !ran.count(t) && !interrupted.count(t))) recs[t].ok = false;
     else softAfterFailure.insert(t);
   }
 }
@@ -935,6 +996,16 @@ void Run::execute() {
   load();
   simos::reset();
   Run* self = this;
+  bool debug = getenv("VSIM_REASONS") != nullptr;
+  simos::hooks().onSpawn = [self, debug](int pid, const std::vector<std::string>& argv, const std::map<std::string, std::string>&) {
+    if (argv.size() > 1) self->spawnSeq[argv[1]] = self->seq;
+    if (debug) self->ev("posix_spawn pid=" + std::to_string(pid) + " " + (argv.size() > 1 ? argv[1] : ""));
+  };
+  if (debug) {
+    simos::hooks().onSignal = [self](int pid, int sig, bool delivered) {
+      self->ev("kill pid=" + std::to_string(pid) + " sig=" + std::to_string(sig) + (delivered ? " delivered" : " not-delivered"));
+    };
+  }
   simos::registerProgram("/sim/bin/cc", [self](simos::ProcCtx& c) { return self->toolProgram(c); });
   for (auto& op : plan.geta("history")) {
     std::string kind = op.gets("op");
@@ -1408,6 +1479,8 @@ struct Gen {
       Json op = Json::obj().set("op", "build");
       if (desc.targets.count("second") && rng.chance(150)) op.set("target", util::hex("second"));
       else op.set("target", util::hex(""));
+      if (property == "C05" && rng.chance(550))
+        op.set("cancel", Json::obj().set("n", (int64_t)rng.below(6)).set("yields", (int64_t)rng.below(25)));
       hist.push(op);
     };
     addBuild();
@@ -1512,6 +1585,8 @@ struct Gen {
         desc.normalise();
         hist.push(Json::obj().set("op", "desc").set("kind", kind).set("desc", desc.toJson()));
         addBuild();
+      } else if (property == "C05") {
+        addBuild();
       } else {
         // make a command fail for a while
         std::vector<std::string> shells;
@@ -1599,6 +1674,7 @@ public:
     if (p == "C08") run.res.nontrivial = run.descEdits > 0 && run.sourceEdits > 0 && run.skippedCommands > 0;
     else if (p == "C09") run.res.nontrivial = run.anyMixed || run.nullBuilds > 0;
     else if (p == "C10") run.res.nontrivial = run.failuresInjected > 0;
+    else if (p == "C05") run.res.nontrivial = run.cancelledBuilds > 0 && run.buildNo >= 2;
     else if (p == "C11") run.res.nontrivial = run.discoveredSeen > 0;
     else if (p == "C12") run.res.nontrivial = run.treeEdits > 0 && run.treeReruns > 0;
     else if (p == "C14") run.res.nontrivial = run.staleChecks >= 2 && run.staleRemovals > 0;
